@@ -45,27 +45,28 @@ def samepair(g, x, y, u, v):
 
 # ---- I1 shape / ownership ------------------------------------------------------------------------
 
-def shape_h(g, nodes, pairs):
+def shape_h(g, nodes, pairs, quantified=True):
     """hypothesis form of I1 for the given node terms and pair terms (+ the quantified form)"""
     hs = []
+    _FA = FA if quantified else (lambda *a, **k: z3.BoolVal(True))
     n_ = z3.Const('n?sh', Node)
     a_, b_ = z3.Consts('a?sh b?sh', Node)
     ws = g.ws
     for w in ws:
         Row, Cell = g['Row_' + w], g['Cell_' + w]
-        hs.append(FA([n_], Row[n_] == g['NodeIn'][n_], [Row[n_]]))
-        hs.append(FA([a_, b_], z3.Implies(Cell[a_][b_] != 0,
+        hs.append(_FA([n_], Row[n_] == g['NodeIn'][n_], [Row[n_]]))
+        hs.append(_FA([a_, b_], z3.Implies(Cell[a_][b_] != 0,
                                           z3.And(g['NodeIn'][a_], g['NodeIn'][b_], Cell[a_][b_] > 0,
                                                  Cell[a_][b_] < g['NextRef'], g['HasT'][Cell[a_][b_]],
                                                  g['Len'][Cell[a_][b_]] >= 1)),
                      [Cell[a_][b_]]))
     if g.directed:
         Cs, Cp = g['Cell_succ'], g['Cell_pred']
-        hs.append(FA([a_, b_], Cp[b_][a_] == Cs[a_][b_], [Cs[a_][b_]]))
-        hs.append(FA([a_, b_], Cp[b_][a_] == Cs[a_][b_], [Cp[b_][a_]]))
+        hs.append(_FA([a_, b_], Cp[b_][a_] == Cs[a_][b_], [Cs[a_][b_]]))
+        hs.append(_FA([a_, b_], Cp[b_][a_] == Cs[a_][b_], [Cp[b_][a_]]))
     else:
         C = g['Cell_adj']
-        hs.append(FA([a_, b_], C[a_][b_] == C[b_][a_], [C[a_][b_]]))
+        hs.append(_FA([a_, b_], C[a_][b_] == C[b_][a_], [C[a_][b_]]))
     hs.append(g['NextRef'] >= 1)
     # instances
     C = g['Cell_' + g.mainw()]
@@ -85,7 +86,7 @@ def shape_h(g, nodes, pairs):
         for (c, d) in pairs[i + 1:]:
             hs.append(z3.Implies(z3.And(C[a][b] != 0, C[a][b] == C[c][d]), samepair(g, a, b, c, d)))
     c_, d_ = z3.Consts('c?sh d?sh', Node)
-    hs.append(FA([a_, b_, c_, d_], z3.Implies(z3.And(C[a_][b_] != 0, C[a_][b_] == C[c_][d_]),
+    hs.append(_FA([a_, b_, c_, d_], z3.Implies(z3.And(C[a_][b_] != 0, C[a_][b_] == C[c_][d_]),
                                               samepair(g, a_, b_, c_, d_)),
                  [z3.MultiPattern(C[a_][b_], C[c_][d_])]))
     return hs
@@ -266,7 +267,7 @@ def snapkeys_goals(g, a, b, q):
 
 def inv_assume(ctx, g, view, nodes, pairs, shape_pairs=None, k=2, removal=True):
     """assume Inv(g) in hypothesis form, by category, instantiated for the given terms"""
-    ctx.assume(shape_h(g, nodes, list(pairs) + list(shape_pairs or [])), 'shape')
+    ctx.assume(shape_h(g, nodes, list(pairs) + list(shape_pairs or []), quantified=not getattr(ctx, 'bounded', False)), 'shape')
     ctx.assume(tte_h(g), 'tte')
     for (a, b) in pairs:
         ctx.assume(canon_h(g, a, b), 'canon')
